@@ -92,24 +92,31 @@ impl Report {
         let mut unknown = 0usize;
         let mut known_hits: BTreeMap<String, usize> = BTreeMap::new();
         let mut n = 0usize;
+        let mut per_class: BTreeMap<String, usize> = BTreeMap::new();
         for (sig, (count, detail)) in &self.by_sig {
             if let Some(k) = self.known_for(sig) {
                 *known_hits.entry(k.what.clone()).or_insert(0) += count;
                 continue;
             }
             unknown += 1;
-            if n < 40 {
+            let class = sig_class(sig);
+            let seen = per_class.entry(class).or_insert(0);
+            *seen += 1;
+            if *seen <= 3 && n < 60 {
                 let _ = std::fs::create_dir_all(&replay_dir);
                 let path = replay_dir.join(format!("{n}.json"));
                 let body = json!({"property": self.property, "sig": sig, "occurrences": count, "case": detail});
                 std::fs::write(&path, serde_json::to_string_pretty(&body).unwrap()).expect("write replay");
                 println!("VIOLATION property={} replay={}", self.property, path.display());
                 println!("  sig: {sig}");
+                n += 1;
             }
-            n += 1;
         }
-        if unknown > 40 {
-            println!("  ... and {} more distinct violation signatures", unknown - 40);
+        if unknown > 0 {
+            println!("  ... {} distinct violation signatures in {} classes:", unknown, per_class.len());
+            for (class, count) in &per_class {
+                println!("    {count:6}  {class}");
+            }
         }
         for (what, count) in &known_hits {
             println!("KNOWN-FINDING: property={} {} ({} cases)", self.property, what, count);
@@ -150,6 +157,14 @@ impl Report {
             0
         }
     }
+}
+
+/// coarse class of a signature: everything except the `construct=` / `types=` / `static=` / `node=` fields
+pub fn sig_class(sig: &str) -> String {
+    sig.split('|')
+        .filter(|f| !(f.starts_with("construct=") || f.starts_with("types=") || f.starts_with("static=") || f.starts_with("node=") || f.starts_with("case=")))
+        .collect::<Vec<_>>()
+        .join("|")
 }
 
 /// Small helper: keep the first `cap` samples.
